@@ -124,6 +124,12 @@ def bLine (ws : List String) : String := Id.run do
       | none => "n"
     if min r.shared.inflight Gen.MAX_ENTRIES ≠ finCount || mfin ≠ finVals then
       issues := issues ++ [s!"DIFF final state: model count {r.shared.inflight} {mfin} impl {finCount} {finVals}"]
+  -- C11 under the same schedule: once the threads and the last handle are gone, every item that was created has been dropped exactly once
+  match (get "drops").splitOn "/" with
+  | [nv, tw] =>
+    if nv ≠ "never:-" then issues := issues ++ [s!"ORACLE C11 items {nv.drop 6} were never dropped although the last handle to the vector is gone (leaked)"]
+    if tw ≠ "twice:-" then issues := issues ++ [s!"ORACLE C11 items {tw.drop 6} were dropped more than once"]
+  | _ => pure ()
   if issues.isEmpty then "ok" else " ## ".intercalate issues
 
 /-- `K` lines: one thread at the capacity limit.  `ops`: `c<count>:<completed pushes>`, `e<claimed>:<ok|panic>`, `p:<index|panic>`.
